@@ -26,8 +26,10 @@ RULE = ("random histories of [np.random.seed(s) | np.random.normal(size=n) | fit
 ASSUMPTIONS = ["dask_ml k_init (seeded data-dependent initialisation) is not modelled; its dependence on the row order is known finding D14"]
 KNOWN_SIG = "seeded-kmeans-init-depends-on-row-order"
 
-ESTS = ["kmeans", "gmm", "isv", "jfa", "isv_dask", "wccn", "ivector", "isv_lazy", "jfa_lazy"]
-SOURCE = {"kmeans": "localGen", "gmm": "localGen", "isv": "reseedGlobal", "jfa": "reseedGlobal", "isv_dask": "reseedGlobal", "wccn": "none", "ivector": "globalAsIs",
+ESTS = ["kmeans", "gmm", "isv", "jfa", "isv_dask", "wccn", "ivector", "isv_lazy", "jfa_lazy", "kmeans_reuse", "gmm_shared_trainer"]
+# *_reuse / *_shared_trainer: one estimator object (per configuration and seed) serves every fit of the history — what it was
+# fitted on before is not part of the provenance, so the results must equal those of a fresh object
+SOURCE = {"kmeans_reuse": "localGen", "gmm_shared_trainer": "localGen", "kmeans": "localGen", "gmm": "localGen", "isv": "reseedGlobal", "jfa": "reseedGlobal", "isv_dask": "reseedGlobal", "wccn": "none", "ivector": "globalAsIs",
           "isv_lazy": "reseedGlobal", "jfa_lazy": "reseedGlobal"}
 # *_lazy: the machine is constructed without a trained UBM (ubm=None + ubm_kwargs) at the START of the history and fitted where the
 # history says; the model treats that construction as a no-op on the generator (no draw can happen before the UBM exists), so every
@@ -73,12 +75,21 @@ def digest(arrs):
     return h.hexdigest()[:16]
 
 
-def do_fit(est, cfg, data, rs):
+def do_fit(est, cfg, data, rs, pool=None):
     import dask.array as da
     from bob.learn.em import GMMMachine, ISVMachine, IVectorMachine, JFAMachine, KMeansMachine, WCCN
 
     X, y = data["X"], data["y"]
     ubm = gen.mk_gmm(data["w"], data["m"], data["v"])
+    pool = {} if pool is None else pool
+    if est == "kmeans_reuse":
+        m = pool.setdefault(("km", cfg, rs), KMeansMachine(2 + cfg, init_method="random", random_state=rs, max_iter=8, convergence_threshold=0.3))
+        m.fit(X)
+        return digest([m.centroids_]), 0
+    if est == "gmm_shared_trainer":
+        km = pool.setdefault(("kmt", cfg, rs), KMeansMachine(2, init_method="random", random_state=rs, max_iter=8, convergence_threshold=0.3))
+        g = GMMMachine(2, k_means_trainer=km, max_fitting_steps=1 + cfg, convergence_threshold=None, update_variances=True).fit(X)
+        return digest([g.weights, g.means, g.variances]), 0
     if est == "kmeans":
         m = KMeansMachine(2 + cfg, init_method="random" if cfg else "k-means||", random_state=rs, max_iter=3).fit(X)
         return digest([m.centroids_]), 0
@@ -90,12 +101,12 @@ def do_fit(est, cfg, data, rs):
         mach.create_UVD()  # the constructor already drew once (ubm is trained); fit_using_array draws nothing more
         Xin = da.from_array(X, chunks=(8, X.shape[1])) if est == "isv_dask" else X
         mach.fit_using_array(Xin, y)
-        return digest([mach.U, mach.D]), 2 * 4 * (1 + cfg)
+        return digest([mach.U, mach.D]), 4 * (1 + cfg)  # every create_UVD reseeds: the generator ends (seed rs, one set of draws)
     if est == "jfa":
         mach = JFAMachine(1, 1 + cfg, ubm=ubm, em_iterations=1, random_state=rs)
         mach.create_UVD()
         mach.fit_using_array(X, y)
-        return digest([mach.U, mach.V, mach.D]), 2 * (4 + 4 * (1 + cfg))
+        return digest([mach.U, mach.V, mach.D]), 4 + 4 * (1 + cfg)
     if est == "wccn":
         w = WCCN().fit(X, list(y))
         return digest([w.weights]), 0
@@ -129,6 +140,7 @@ def gen_history(ctx):
 
 def run_history(ops, data):
     results = []
+    pool = {}
     pending = {i: core.impl(lambda: construct_lazy(op["est_name"], op["cfg"], op["rs"], data[op["data"]]["m"])) for i, op in enumerate(ops) if op["k"] == "fit" and op["est_name"] in LAZY}
     for i, op in enumerate(ops):
         if op["k"] == "fit" and op["est_name"] in LAZY:
@@ -146,7 +158,7 @@ def run_history(ops, data):
             np.random.normal(size=op["n"])
             results.append(None)
         else:
-            r = core.impl(lambda: do_fit(op["est_name"], op["cfg"], data[op["data"]], op["rs"]))
+            r = core.impl(lambda: do_fit(op["est_name"], op["cfg"], data[op["data"]], op["rs"], pool))
             if isinstance(r, core.ImplError):
                 results.append(r)
             else:
@@ -162,7 +174,7 @@ def correspondence(ctx):
     res = [run_history(h, data) for h in hist]
     outs = core.drive([{"op": "rng_keys", "ops": h} for h in hist])
     groups = {}
-    for h, rs, o in zip(hist, res, outs):
+    for hi, (h, rs, o) in enumerate(zip(hist, res, outs)):
         ctx.traces += 1
         fits = [op for op in h if op["k"] == "fit"]
         ctx.case([[(op.get("est_name"), op.get("cfg"), op.get("data"), op.get("rs"), op.get("s"), op.get("n")) for op in h]], nontrivial=len(fits) >= 2,
@@ -176,7 +188,10 @@ def correspondence(ctx):
                 # history with the same provenance: the exception type takes the place of the model digest
                 ctx.count("fit-raises:" + op["est_name"])
                 r = "raises:" + r.kind
-            groups.setdefault(core.sha(k), []).append((k, r, op, h))
+            # "never seeded in this history" denotes a generator state that is particular to the history (the harness runs all
+            # histories in one process, each starts where the previous one stopped): such keys are comparable within a history only
+            unseeded = isinstance(k, dict) and isinstance(k.get("gen"), dict) and k["gen"].get("seed") is None
+            groups.setdefault(core.sha([k, hi] if unseeded else k), []).append((k, r, op, h))
     for key, items in groups.items():
         digs = {r for _, r, _, _ in items}
         if len(digs) > 1:
@@ -194,6 +209,20 @@ def train(est, data, X, y, rs, stats=None, between=None):
     from bob.learn.em import ISVMachine, JFAMachine, KMeansMachine, WCCN
 
     ubm = gen.mk_gmm(data["w"], data["m"], data["v"])
+    if est in ("kmeans_reuse", "gmm_shared_trainer"):
+        # with `between`: the estimator object (resp. the shared k-means trainer) has already been fitted on other data
+        # threshold 10: no relative change can exceed it, so a fresh object always stops after exactly two iterations
+        km = KMeansMachine(2, init_method="random", random_state=rs, max_iter=8, convergence_threshold=10.0)
+        if between:
+            core.impl(lambda: km.fit(np.asarray(X) * 0.7 + 1.0))
+            core.impl(lambda: km.fit(np.asarray(X)))  # also the very data of the next fit: whatever it left behind must not matter
+            between()
+        if est == "kmeans_reuse":
+            km.fit(X)
+            return [np.sort(np.asarray(km.centroids_), axis=0)]
+        from bob.learn.em import GMMMachine
+        g = GMMMachine(2, k_means_trainer=km, max_fitting_steps=1, convergence_threshold=None, update_variances=True).fit(X)
+        return [np.sort(np.asarray(g.means), axis=0)]
     if est in LAZY:
         mach = construct_lazy(est, 0, rs, data["m"])
         if between:
@@ -232,7 +261,7 @@ def oracle(est, data, seed):
             return {"sig": f"depends-on-history:{est}", "what": f"{est}: first fit raised {base!r}, an identical second fit gave {again!r}"}
         return None
     # sample order (samples stay with their labels; ISV/JFA from arrays: frames of one class stay in their class)
-    perm = r.permutation(len(X))
+    perm = r.permutation(len(X)) if est not in ("kmeans_reuse", "gmm_shared_trainer") else np.arange(len(X))  # seeded init: row order is D14's business
     p = core.impl(lambda: train(est, data, X[perm], y[perm], 3))
     if isinstance(p, core.ImplError) or not all(core.close(np.asarray(a, float), np.asarray(b, float), 1e-8, 1e-9) for a, b in zip(base, p)):
         sig = KNOWN_SIG if est == "kmeans_seeded" else f"depends-on-sample-order:{est}"
@@ -259,8 +288,8 @@ def oracle(est, data, seed):
 def search(ctx):
     fails, seen = [], set()
     data = datasets(ctx.seed + 1)
-    ests = ["kmeans_explicit", "kmeans_seeded", "gmm_explicit", "isv", "isv_dask", "jfa", "wccn", "isv_lazy", "jfa_lazy"]
-    for i in range(ctx.budget(18, 180)):
+    ests = ["kmeans_explicit", "kmeans_seeded", "gmm_explicit", "isv", "isv_dask", "jfa", "wccn", "isv_lazy", "jfa_lazy", "kmeans_reuse", "gmm_shared_trainer"]
+    for i in range(ctx.budget(22, 220)):
         est = ests[i % len(ests)]
         ctx.count("search:" + est)
         ctx.case(["s", est, i], nontrivial=True)
